@@ -738,4 +738,113 @@ class SequenceWrap(Bounded):
         return None
 
 
-BOUNDED = [RoundTripMatrix, WireReference, Tamper, VersionExchange, SequenceWrap]
+K2 = dict(iv_ab=_material(b"ivab2"), key_ab=_material(b"keyab2"), mac_ab=_material(b"macab2"),
+          iv_ba=_material(b"ivba2"), key_ba=_material(b"keyba2"), mac_ba=_material(b"macba2"))
+
+
+def _next_ciphers(cfg, role):
+    cip, mac, comp = cfg
+    c = transport.SSHCiphers(cip, cip, mac, mac)
+    with warnings.catch_warnings():
+        warnings.simplefilter("ignore")
+        if role == "A":
+            c.setKeys(K2["iv_ab"], K2["key_ab"], K2["iv_ba"], K2["key_ba"], K2["mac_ab"], K2["mac_ba"])
+        else:
+            c.setKeys(K2["iv_ba"], K2["key_ba"], K2["iv_ab"], K2["key_ab"], K2["mac_ba"], K2["mac_ab"])
+    return c
+
+
+class _RekeyEndpoint(_Endpoint):
+    """switches to the negotiated keys when the peer's NEWKEYS arrives, as SSHServerTransport / SSHClientTransport do"""
+
+    def dispatchMessage(self, messageNum, payload):
+        self.delivered.append((messageNum, bytes(payload)))
+        if messageNum == transport.MSG_NEWKEYS:
+            self._newKeys()
+
+
+def _begin_rekey(e, cfg2, role):
+    """the state sendKexInit / ssh_KEXINIT / _keySetup leave behind, without the Diffie-Hellman arithmetic"""
+    e._keyExchangeState = e._KEY_EXCHANGE_PROGRESSING
+    e._blockedByKeyExchange = []
+    e.nextEncryptions = _next_ciphers(cfg2, role)
+    comp = b"zlib" if cfg2[2] else b"none"
+    e.outgoingCompressionType = e.incomingCompressionType = comp
+
+
+class RekeyQueue(Bounded):
+    prop = "C35"
+    title = "payloads sent while a key re-exchange is in progress reach the peer intact, in order, under the new keys"
+    scope = ("A and B keyed with configuration 1 re-key to configuration 2 (every supported cipher x MAC pair as the "
+             "old one against two new ones and vice versa, compression off/on); A's application sends 0..3 messages of "
+             "types {IGNORE (2), 50, 94, 255} before A's NEWKEYS and 0..2 of types {50, 94} between A's NEWKEYS and the "
+             "arrival of B's; the key exchange arithmetic itself is not run (states set as sendKexInit/_keySetup leave "
+             "them); wire delivered whole and byte-at-a-time")
+    functions = ["SSHTransportBase.sendPacket", "SSHTransportBase._allowedKeyExchangeMessageType", "SSHTransportBase._newKeys",
+                 "SSHTransportBase.getPacket", "SSHTransportBase.dataReceived"]
+
+    def cases(self, tier, rng):
+        cfgs = list(all_configs())
+        fixed = [(b"aes128-ctr", b"hmac-sha2-256", False), (b"aes256-ctr", b"hmac-sha1", True)]
+        fixed = [f for f in fixed if f in cfgs] or cfgs[:2]
+        scripts = []
+        for nb in range(0, 3):
+            for before in itertools.product((2, 50, 94, 255), repeat=nb):
+                for after in ((), (94,), (50, 94)):
+                    scripts.append((before, after))
+        pairs = [(c, f) for c in cfgs for f in fixed] + [(f, c) for c in cfgs for f in fixed]
+        if tier == "quick":
+            pairs = pairs[::5]
+        for k, (c1, c2) in enumerate(pairs):
+            for j, sc in enumerate(scripts):
+                if tier == "quick" and (j + k) % 7:
+                    continue
+                yield (c1, c2, sc)
+
+    def check(self, case):
+        cfg1, cfg2, (before, after) = case
+        a = endpoint(cfg1, "A")
+        a.__class__ = _RekeyEndpoint
+        b = endpoint(cfg1, "B")
+        b.__class__ = _RekeyEndpoint
+        a.sendPacket(94, b"established")
+        _begin_rekey(a, cfg2, "A")
+        _begin_rekey(b, cfg2, "B")
+        allowed, queued = [], []
+        n = 0
+        try:
+            for t in before:
+                n += 1
+                pl = b"during-%d" % n
+                a.sendPacket(t, pl)
+                (allowed if t == 2 else queued).append((t, pl))
+            a.sendPacket(transport.MSG_NEWKEYS, b"")
+            for t in after:
+                n += 1
+                pl = b"after-own-newkeys-%d" % n
+                a.sendPacket(t, pl)
+                queued.append((t, pl))
+            # B's NEWKEYS reaches A (under the old keys): A adopts the new keys and flushes its queue
+            b.sendPacket(transport.MSG_NEWKEYS, b"")
+            a.dataReceived(b.transport.take())
+            a.sendPacket(94, b"afterwards")
+        except Exception as e:
+            return "%s -> %s, script %r: A raised %r" % (name_of(cfg1), name_of(cfg2), (before, after), e)
+        want = [(94, b"established")] + allowed + [(transport.MSG_NEWKEYS, b"")] + queued + [(94, b"afterwards")]
+        wire = a.transport.take()
+        for label, chunks in (("whole", [wire]), ("bytewise", bytewise(wire))):
+            r = endpoint(cfg1, "B")
+            r.__class__ = _RekeyEndpoint
+            _begin_rekey(r, cfg2, "B")
+            try:
+                for c in chunks:
+                    r.dataReceived(c)
+            except Exception as e:
+                return "%s -> %s, script %r, %s: B raised %r" % (name_of(cfg1), name_of(cfg2), (before, after), label, e)
+            if r.transport.lost or r.delivered != want:
+                return "%s -> %s, script %r, %s: A sent %s, B dispatched %s, disconnected %s" % (
+                    name_of(cfg1), name_of(cfg2), (before, after), label, show(want, 8), show(r.delivered, 8), bool(r.transport.lost))
+        return None
+
+
+BOUNDED = [RoundTripMatrix, WireReference, Tamper, VersionExchange, SequenceWrap, RekeyQueue]
